@@ -353,4 +353,52 @@ MUTANTS = [
      "    bijector_inputs = InputGroup(*args, **kwargs)\n    frozen_args = bijector_inputs.value\n\n    # define distribution \"class\" for the transformed var\n    def transform_dist(dist_args: ArgGroup, bijector_args: ArgGroup):\n        tfp_dist = InputDist(*dist_args.args, **dist_args.kwargs)\n        bjargs, bjkwargs = frozen_args.args, frozen_args.kwargs\n"),
     ("C14-deprecated-path-parameter-flag-not-moved", "liesel/model/model.py",
      "        var_transformed.parameter = var.parameter\n", ""),
+    # ------------------------------------------------------------------ C03
+    ("C03-interface-keeps-the-users-model", "liesel/goose/interface.py",
+     "        self._model = model._copy_computational_model()\n", "        self._model = model\n"),
+    ("C03-dirty-flags-not-cleared", "liesel/goose/interface.py",
+     "        for node in self._model.nodes.values():\n            node._outdated = False\n\n", ""),
+    ("C03-state-restored-without-model-totals", "liesel/goose/interface.py",
+     "        self._model.state = model_state\n",
+     "        self._model.state = {\n            k: v for k, v in model_state.items() if not k.startswith(\"_model\")\n        }\n"),
+    ("C03-extract-position-variable-name-first", "liesel/goose/interface.py",
+     """            try:
+                position[key] = model_state[key].value
+            except KeyError:
+                node_key = self._model.vars[key].value_node.name
+                position[key] = model_state[node_key].value""",
+     """            try:
+                node_key = self._model.vars[key].value_node.name
+                position[key] = model_state[node_key].value
+            except KeyError:
+                position[key] = model_state[key].value"""),
+    ("C03-copy-computational-model-forgets-restore", "liesel/model/model.py",
+     "        empty = deepcopy(self)\n        self.state = backup\n", "        empty = deepcopy(self)\n"),
+    ("C03-dataclass-interface-mutates-in-place", "liesel/goose/interface.py",
+     "        new_state = copy.copy(model_state)  # don't change the input\n", "        new_state = model_state\n"),
+    ("C03-update-state-targeted-update", "liesel/goose/interface.py",
+     "                self._model.vars[key].value = value\n\n        self._model.update()\n        return self._model.state\n",
+     "                self._model.vars[key].value = value\n\n        self._model.update(*position.keys())\n        return self._model.state\n"),
+    ("C03-update-state-variable-name-first", "liesel/goose/interface.py",
+     """            try:
+                self._model.nodes[key].value = value  # type: ignore  # data node
+            except KeyError:
+                self._model.vars[key].value = value
+
+        self._model.update()
+        return self._model.state""",
+     """            try:
+                self._model.vars[key].value = value
+            except KeyError:
+                self._model.nodes[key].value = value  # type: ignore  # data node
+
+        self._model.update()
+        return self._model.state"""),
+    ("C03-log-prob-returns-likelihood", "liesel/goose/interface.py",
+     '        return model_state["_model_log_prob"].value\n', '        return model_state["_model_log_lik"].value\n'),
+    ("C03-goose-model-skips-state-restore-when-same-keys", "liesel/model/goose.py",
+     "        self._model.state = model_state\n\n        for node in self._model.nodes.values():",
+     "        if not getattr(self, \"_seen\", False):\n            self._model.state = model_state\n            self._seen = True\n\n        for node in self._model.nodes.values():"),
+    ("C03-namedtuple-interface-ignores-position", "liesel/goose/interface.py",
+     "        new_state = model_state._replace(**position)\n", "        new_state = model_state._replace(**{k: v for k, v in list(position.items())[:1]})\n"),
 ]
